@@ -2568,7 +2568,8 @@ hsStateDetermined:
                 Verify the fragment belongs within fragMessage.
 */
                 if (fragOffset + fragLen > hsLen ||
-                    fragOffset + fragLen > ssl->fragLenStored)
+                    fragOffset + fragLen > ssl->fragLenStored ||
+                    fragLen > (uint32) (end - c))
                 {
                     /* Fragment outside proper area. */
                     ssl->err = SSL_ALERT_DECODE_ERROR;
